@@ -10,13 +10,13 @@ UNIT = {
     ],
     'functions': [
         {'file': 'yash-quote/src/lib.rs', 'item': 'char_needs_quoting (every char)'},
-        {'file': 'yash-quote/src/lib.rs', 'item': 'str_needs_quoting (thorough: texts of 2-3 characters over # ~ : { } [ ] a space)'},
+        {'file': 'yash-quote/src/lib.rs', 'item': 'str_needs_quoting (the empty text and the nine one-character texts over # ~ : { } [ ] a space)'},
     ],
-    'harnesses': {'quick': ['c07q_', 'c07x_'], 'thorough': ['c07t_']},
-    'min_harnesses': {'quick': 2, 'thorough': 3},
+    'harnesses': {'quick': ['c07q_', 'c07x_'], 'thorough': []},
+    'min_harnesses': {'quick': 3, 'thorough': 3},
     'control_re': r'^c07x_',
     'complete_re': r'^c07q_char_needs_quoting',
-    'bound': 'char_needs_quoting: complete over every char; str_needs_quoting: every text of 2 or 3 characters over the alphabet # ~ : { } [ ] a <space>',
+    'bound': 'char_needs_quoting: complete over every char; str_needs_quoting: the empty text and one-character texts only (longer texts need the two-way string search of std, out of reach for CBMC: measured)',
     'jobs': {'quick': 4, 'thorough': 6},
     'harness_timeout': '1200s',
     'timeout_s': {'quick': 1500, 'thorough': 3000},
